@@ -271,6 +271,132 @@ theorem natToHex_no_leading_zero (n : Nat) (hn : 0 < n) : (natToHex n).head? ≠
         rw [hq] at this
         simpa using this
 
+/-! ### decimal: print, then parse, is the identity -/
+
+theorem digitVal_digitChar (d : Nat) (h : d < 10) : digitVal (Nat.digitChar d) = some d ∧ Nat.digitChar d ≠ '_' ∧
+    Nat.digitChar d ≠ '+' ∧ Nat.digitChar d ≠ '-' ∧ (Nat.digitChar d).toNat < 256 := by
+  have : ∀ m : Fin 10, digitVal (Nat.digitChar m.val) = some m.val ∧ Nat.digitChar m.val ≠ '_' ∧
+      Nat.digitChar m.val ≠ '+' ∧ Nat.digitChar m.val ≠ '-' ∧ (Nat.digitChar m.val).toNat < 256 := by decide
+  exact this ⟨d, h⟩
+
+/-- scanning the decimal digits of `n` (followed by `rest`) shifts the accumulator by the digits and adds `n` -/
+theorem scanDigits_toDigits (n : Nat) : ∀ (rest : List Char) (st : ScanSt),
+    ∃ k, 0 < k ∧ scanDigits 10 (Nat.toDigits 10 n ++ rest) st =
+      scanDigits 10 rest { st with acc := st.acc * 10 ^ k + n, count := st.count + k, prevDigit := true, prevSep := false } := by
+  induction n using Nat.strongRecOn with
+  | _ n ih =>
+    intro rest st
+    rw [Nat.toDigits_eq_if (by decide)]
+    split
+    · rename_i hlt
+      obtain ⟨hd, hne, _⟩ := digitVal_digitChar n hlt
+      refine ⟨1, by omega, ?_⟩
+      simp only [List.singleton_append, scanDigits, hne, if_false, hd, hlt, if_true, Nat.pow_one]
+    · rename_i hge
+      obtain ⟨k, hk, hq⟩ := ih (n / 10) (by omega) ([Nat.digitChar (n % 10)] ++ rest) st
+      obtain ⟨hd, hne, _⟩ := digitVal_digitChar (n % 10) (by omega)
+      refine ⟨k + 1, by omega, ?_⟩
+      rw [List.append_assoc, hq]
+      simp only [List.singleton_append, scanDigits, hne, if_false, hd, show n % 10 < 10 by omega, if_true]
+      congr 2
+      rw [Nat.pow_succ]
+      have : n / 10 * 10 + n % 10 = n := by omega
+      calc (st.acc * 10 ^ k + n / 10) * 10 + n % 10
+          = st.acc * (10 ^ k * 10) + (n / 10 * 10 + n % 10) := by rw [Nat.add_mul, Nat.mul_assoc, Nat.add_assoc]
+        _ = st.acc * (10 ^ k * 10) + n := by rw [this]
+
+/-- the decimal digits of a positive number do not start with 0 (nor with a sign) -/
+theorem toDigits_head (n : Nat) (hn : 0 < n) : ∃ c cs, Nat.toDigits 10 n = c :: cs ∧ c ≠ '0' ∧ c ≠ '+' ∧ c ≠ '-' := by
+  induction n using Nat.strongRecOn with
+  | _ n ih =>
+    rw [Nat.toDigits_eq_if (by decide)]
+    split
+    · rename_i hlt
+      refine ⟨Nat.digitChar n, [], rfl, ?_, (digitVal_digitChar n hlt).2.2.1, (digitVal_digitChar n hlt).2.2.2.1⟩
+      have : ∀ m : Fin 10, 0 < m.val → Nat.digitChar m.val ≠ '0' := by decide
+      exact this ⟨n, hlt⟩ hn
+    · rename_i hge
+      obtain ⟨c, cs, h1, h2⟩ := ih (n / 10) (by omega) (by omega)
+      exact ⟨c, cs ++ [Nat.digitChar (n % 10)], by rw [h1]; rfl, h2⟩
+
+theorem scanNat0_dec (n : Nat) : scanNat0 (Nat.toDigits 10 n) = some n := by
+  by_cases hn : n = 0
+  · subst hn; rfl
+  · obtain ⟨c, cs, hd, hc0, _, _⟩ := toDigits_head n (by omega)
+    obtain ⟨k, hk, hq⟩ := scanDigits_toDigits n [] ⟨0, 0, false, false, false⟩
+    rw [List.append_nil] at hq
+    unfold scanNat0
+    rw [hd] at hq ⊢
+    split
+    · rename_i heq; injection heq with h1 _; exact absurd h1 hc0
+    · rename_i heq; injection heq with h1 _; exact absurd h1 hc0
+    · rw [hq]
+      simp [scanDigits]
+      omega
+
+/-- **A non-negative integer printed in decimal parses back to itself.** -/
+theorem dec_print_parse (n : Nat) : setString0 (toString n).toList = some (n : Int) := by
+  have hl : (toString n).toList = Nat.toDigits 10 n := by
+    rw [Nat.toString_eq_repr, Nat.toList_repr]
+  rw [hl]
+  by_cases hn : n = 0
+  · subst hn; rfl
+  · obtain ⟨c, cs, hd, hc0, hcp, hcm⟩ := toDigits_head n (by omega)
+    have := scanNat0_dec n
+    rw [hd] at this ⊢
+    unfold setString0
+    split
+    · rename_i heq; cases heq
+    · rename_i heq; injection heq with h1 _; exact absurd h1 hcp
+    · rename_i heq; injection heq with h1 _; exact absurd h1 hcm
+    · rw [this]; rfl
+
+
+theorem int_toString_chars (z : Int) :
+    (toString z).toList = (if z < 0 then ['-'] else []) ++ Nat.toDigits 10 z.natAbs := by
+  cases z with
+  | ofNat m =>
+    have : ¬ (Int.ofNat m < 0) := by simp
+    simp only [this, if_false, List.nil_append]
+    show (Int.repr (Int.ofNat m)).toList = _
+    simp [Int.repr, Nat.toList_repr]
+  | negSucc m =>
+    have : Int.negSucc m < 0 := Int.negSucc_lt_zero m
+    simp only [this, if_true]
+    show (Int.repr (Int.negSucc m)).toList = _
+    simp [Int.repr, Nat.toList_repr, Int.natAbs]
+
+/-- **Any integer printed in decimal parses back to itself** (`big.Int.String` / `SetString(s, 0)`). -/
+theorem int_dec_print_parse (z : Int) : setString0 (toString z).toList = some z := by
+  rw [int_toString_chars]
+  by_cases hz : z < 0
+  · simp only [hz, if_true, List.singleton_append]
+    have hm : ∀ cs, setString0 ('-' :: cs) = (scanNat0 cs).map (fun n => -(n : Int)) := fun cs => rfl
+    rw [hm, scanNat0_dec]
+    show some (-((z.natAbs : Nat) : Int)) = some z
+    congr 1; omega
+  · simp only [hz, if_false, List.nil_append]
+    have := dec_print_parse z.natAbs
+    rw [Nat.toString_eq_repr, Nat.toList_repr] at this
+    rw [this]; congr 1; omega
+
+/-- the decimal rendering is ASCII -/
+theorem int_toString_small (z : Int) : ∀ c ∈ (toString z).toList, c.toNat < 256 := by
+  rw [int_toString_chars]
+  intro c hc
+  rw [List.mem_append] at hc
+  rcases hc with hc | hc
+  · split at hc
+    · simp only [List.mem_singleton] at hc; rw [hc]; decide
+    · simp at hc
+  · have hdig : c.isDigit = true := Nat.isDigit_of_mem_toDigits (by decide) (by decide) hc
+    simp only [Char.isDigit, Bool.and_eq_true, decide_eq_true_eq] at hdig
+    have := hdig.2
+    rw [UInt32.le_iff_toNat_le] at this
+    have h57 : ('9' : Char).val.toNat = 57 := rfl
+    show c.val.toNat < 256
+    omega
+
 /-! ### non-vacuity: concrete inputs on which the hypotheses hold (evaluated by the kernel) -/
 open FFS.Model.EthTypes
 example : (bigIntegerFromString "0x1f".toList .fail .fail == .ok 31) = true := by decide +kernel
